@@ -13,6 +13,7 @@ pub mod c29;
 pub mod c30;
 pub mod c32;
 pub mod c33;
+pub mod c35;
 pub mod c40;
 pub mod c44;
 pub mod c45;
